@@ -183,15 +183,40 @@ func c24Validate(r *core.Report, p *core.Prog, val, verify *ssa.Function, nonces
 	fsa := val.Params[0]
 	marker := val.Params[1]
 	value := val.Params[3]
+	// isFsaField / isValue see through helper bindings (core.Bound): a limit test moved into
+	// a guard helper of validate is imported at the call site with the helper's values bound
+	// to validate's arguments.
 	isFsaField := func(v ssa.Value, name string) bool {
-		ld, ok := v.(*ssa.UnOp)
-		if !ok || ld.Op != token.MUL {
-			return false
-		}
-		fa, ok := ld.X.(*ssa.FieldAddr)
-		return ok && fa.X == ssa.Value(fsa) && core.FieldOf(fa) != nil && core.FieldOf(fa).Name() == name
+		root, path := core.BaseObject(v)
+		return root != nil && core.ParamOf(root) == fsa && path == "."+name
 	}
 	isValue := func(v ssa.Value) bool { return core.ParamOf(v) == value }
+	// isSum: the checked sum AddCoin(fsa.CurrentRedeemed, value) whose error rejects
+	isSum := func(v ssa.Value) bool {
+		inner, bind := core.Unbind(v)
+		ex, ok := inner.(*ssa.Extract)
+		if !ok || ex.Index != 0 {
+			return false
+		}
+		c, ok := ex.Tuple.(*ssa.Call)
+		if !ok || core.CalleeName(c.Common()) != pkgCurr+".AddCoin" || !core.ErrLeadsToFailure(c) {
+			return false
+		}
+		a, b := c.Call.Args[0], c.Call.Args[1]
+		if bind != nil {
+			a, b = core.BindValue(a, bind), core.BindValue(b, bind)
+		}
+		return (isFsaField(a, "CurrentRedeemed") && isValue(b)) || (isFsaField(b, "CurrentRedeemed") && isValue(a))
+	}
+	isNonce := func(v ssa.Value) bool {
+		root, path := core.BaseObject(v)
+		if al, ok := root.(*ssa.Alloc); ok {
+			if sv := singleStoreOf(al); sv != nil {
+				root = sv
+			}
+		}
+		return path == ".Nonce" && core.ParamOf(root) == marker
+	}
 	// signature call
 	vcs := findCallsTo(val, verify)
 	if !r.Check(len(vcs) == 1, "C24.validate-body", "validate:one-signature-check", p.Pos(val.Pos()), fmt.Sprintf("%d verifyFreeAllocationRequestNew calls", len(vcs))) {
@@ -200,18 +225,6 @@ func c24Validate(r *core.Report, p *core.Prog, val, verify *ssa.Function, nonces
 	vc := vcs[0]
 	okKey := core.ParamOf(vc.Call.Args[0]) == marker && isFsaField(vc.Call.Args[1], "PublicKey") && core.ErrLeadsToFailure(vc)
 	r.Check(okKey, "C24.validate-body", "validate:signature-key", p.Pos(vc.Pos()), "the marker is verified against the assigner's registered public key; an error aborts")
-	// total: AddCoin(fsa.CurrentRedeemed, value)
-	var sum ssa.Value
-	for _, c := range findCalls(val, pkgCurr+".AddCoin") {
-		a, b := c.Call.Args[0], c.Call.Args[1]
-		if ((isFsaField(a, "CurrentRedeemed") && isValue(b)) || (isFsaField(b, "CurrentRedeemed") && isValue(a))) && core.ErrLeadsToFailure(c) {
-			for _, ref := range *c.Referrers() {
-				if ex, ok := ref.(*ssa.Extract); ok && ex.Index == 0 {
-					sum = ex
-				}
-			}
-		}
-	}
 	// the nonce scan: a loop whose body compares an element of fsa.RedeemedNonces with marker.Nonce
 	var scanHdr *ssa.BasicBlock
 	scanWhy := "no range scan of fsa.RedeemedNonces comparing each element with marker.Nonce"
@@ -229,15 +242,6 @@ func c24Validate(r *core.Report, p *core.Prog, val, verify *ssa.Function, nonces
 					}
 					ia, ok := ld.X.(*ssa.IndexAddr)
 					return ok && isFsaField(ia.X, "RedeemedNonces") && c24IsRangeIndex(ia.Index, l) && c24BoundIsLen(l, ia.Index, ia.X)
-				}
-				isNonce := func(v ssa.Value) bool {
-					root, path := core.BaseObject(v)
-					if al, ok := root.(*ssa.Alloc); ok {
-						if sv := singleStoreOf(al); sv != nil {
-							root = sv
-						}
-					}
-					return path == ".Nonce" && core.ParamOf(root) == marker
 				}
 				if !((isElem(bo.X) && isNonce(bo.Y)) || (isElem(bo.Y) && isNonce(bo.X))) {
 					continue
@@ -275,7 +279,7 @@ func c24Validate(r *core.Report, p *core.Prog, val, verify *ssa.Function, nonces
 		for _, f := range CmpFacts(b) {
 			x, y, op := f.X, f.Y, f.Op
 			for k := 0; k < 2; k++ {
-				if sum != nil && x == sum && isFsaField(y, "TotalLimit") && op == token.LEQ {
+				if isSum(x) && isFsaField(y, "TotalLimit") && op == token.LEQ {
 					okTot = true
 				}
 				if isValue(x) && isFsaField(y, "IndividualLimit") && op == token.LEQ {
@@ -288,6 +292,14 @@ func c24Validate(r *core.Report, p *core.Prog, val, verify *ssa.Function, nonces
 		r.Check(okTot, "C24.validate-body", key("total-limit"), p.Pos(ret.Pos()), "CurrentRedeemed + value (checked) <= TotalLimit must hold")
 		r.Check(okInd, "C24.validate-body", key("individual-limit"), p.Pos(ret.Pos()), "value <= IndividualLimit must hold")
 		okScan := scanHdr != nil && scanHdr.Dominates(b) && !inLoopOf(val, scanHdr, b)
+		// or the library membership test: slices.Contains(fsa.RedeemedNonces, marker.Nonce) == false
+		for _, f := range core.FactsAt(b) {
+			cond, taken := core.NormCond(f.Cond, f.Taken)
+			if c, ok := cond.(*ssa.Call); ok && !taken && core.CalleeName(c.Common()) == "slices.Contains" && len(c.Call.Args) == 2 &&
+				isFsaField(c.Call.Args[0], "RedeemedNonces") && isNonce(c.Call.Args[1]) {
+				okScan = true
+			}
+		}
 		r.Check(okScan, "C24.validate-body", key("nonce-scan-complete"), p.Pos(ret.Pos()), "success only after the whole list of redeemed nonces was scanned without a match (a binary search over the append-ordered list is not a membership test); "+scanWhy)
 	}
 	r.Floor("C24.validate-body", "success exits of validate", n, 1)
